@@ -230,7 +230,12 @@ func runOne(t *testing.T, sc *Scenario, prop string, seed uint64, run int, force
 			Inconcl: rc.Inconcl, NChoices: len(rng.Log), Leaked: res.Leaked, Notes: rc.Notes,
 		}
 		if res.End == simrt.EndPanic && rc.Viol == nil {
-			rec.Viol = &Violation{Class: "panic", Msg: res.Msg, Step: res.Steps}
+			if strings.Contains(res.Msg, "simrt: ") {
+				// a limit of the simulator itself, not a property of mosdns
+				rec.Inconcl = "simulator limit: " + res.Msg
+			} else {
+				rec.Viol = &Violation{Class: "panic", Msg: res.Msg, Step: res.Steps}
+			}
 		}
 		if res.End == simrt.EndStepCap && rec.Inconcl == "" {
 			rec.Inconcl = "step cap"
